@@ -95,8 +95,19 @@ def generate(rng, tier):
                 lines += ['oam.corrupt', 'oam.st']
         lines += ['oam.corrupt', 'oam.dump', 'oam.st']
         cases.append(('bug%d' % i, lines))
+    # the whole machine: reads of FE00-FEFF through the real Mapper while a transfer runs, and after it
+    nbus = 24 if tier == 'quick' else 200
+    for i in range(nbus):
+        page = rng.choice([0xc0, 0xc1, 0xd0, 0x80, 0x98])
+        lines = ['sys.cpurom', 'sys.w 65344 %d' % (0x00 if i % 3 else 0x91)]
+        vals = [rng.randrange(256) for _ in range(160)]
+        for j, v in enumerate(vals):
+            lines.append('sys.w %d %d' % ((page << 8) + j, v))
+        lines += ['sys.w 65350 %d' % page, 'sys.hw %d' % rng.choice([1, 2, 3, 50, 100, 158, 159, rng.randrange(1, 160)]),
+                  'sys.rr 65024 65279', 'sys.r 65350', 'sys.hw 170', 'sys.rr 65024 65279']
+        cases.append(('bus%d' % i, lines))
     info = dict(exhaustive=False,
-                input_distribution=dict(pages=256 * reps, restart_cases=nre, mixed_ppu_cases=nmix,
+                input_distribution=dict(pages=256 * reps, whole_machine_bus_cases=nbus, restart_cases=nre, mixed_ppu_cases=nmix,
                                         oam_bug_model_cases=nbug,
                                         dma_cycles=sum(int(l.split()[1]) for c in cases for l in c[1]
                                                        if l.startswith('dma.run'))),
@@ -107,6 +118,8 @@ def generate(rng, tier):
 def nontrivial(cid, lines, impl):
     if not impl:
         return None
+    if lines and lines[0].startswith('sys.'):
+        return cid
     dumps = [l for l in impl if l.startswith('oam ')]
     if len(set(dumps)) > 1:
         return cid
@@ -120,7 +133,36 @@ def matches_known(k, case, impl, model):
     return False
 
 
+def spec_check_bus(script, out):
+    """whole-machine cases: FE00-FEFF read FF through the Mapper while the transfer runs; afterwards (LCD off) the
+    copied bytes and 0 for FEA0-FEFF"""
+    if len(out) < 3:
+        return 'output ended early (crash?): %s' % (out[-1] if out else '')
+    during, reg, after = out[0], out[1], out[2]
+    hw = int([l for l in script if l.startswith('sys.hw')][0].split()[1])
+    page = int([l for l in script if l.startswith('sys.w 65350')][0].split()[2])
+    if during != 'ff' * 256:
+        i = [during[2 * k:2 * k + 2] != 'ff' for k in range(256)].index(True)
+        return '%d cycles after the write to FF46 Mapper.Read(%04x) = 0x%s, not 0xFF' % (hw, 0xfe00 + i, during[2 * i:2 * i + 2])
+    if int(reg) != page:
+        return 'FF46 reads %s after %d was written' % (reg, page)
+    lcd_off = script[1].split()[2] == '0'
+    if lcd_off:
+        src = {}
+        for l in script:
+            f = l.split()
+            if f[0] == 'sys.w' and (int(f[1]) >> 8) == page:
+                src[int(f[1]) & 255] = int(f[2])
+        want = ''.join('%02x' % src.get(k, 0) for k in range(160)) + '00' * 96
+        if after != want:
+            i = [after[2 * k:2 * k + 2] != want[2 * k:2 * k + 2] for k in range(256)].index(True)
+            return 'after the transfer Mapper.Read(%04x) = 0x%s, expected 0x%s' % (0xfe00 + i, after[2 * i:2 * i + 2], want[2 * i:2 * i + 2])
+    return None
+
+
 def spec_check(script, out):
+    if script and script[0].startswith('sys.'):
+        return spec_check_bus(script, out)
     if any(l.startswith(('oam.pla', 'oam.enter')) for l in script):
         return None            # corruption-model cases: correspondence only
     """statement-level expectation: FF46 read-back; 0xFF from Read while a transfer runs (fewer than 162 cycles
